@@ -109,9 +109,12 @@ def r2(ctx, R):
                 R.bad(rm, r_, "reports success without re-keying")
     cm = ctx.func("System.close_model")
     dels = [st for st, t in q.subscript_writes(cm, ("models", "_models")) if isinstance(st, ast.Delete)]
-    R.inst("close_model: del models[model.name]")
+    R.inst("close_model: del models[model.name], only while that entry is this very model")
     if len(dels) != 1 or norm(dels[0].targets[0].slice) != "model.name":
         R.bad(cm, cm.node, "close_model does not remove exactly the entry of the closed model", stmt="del models[...]")
+    elif ("self.models.get(model.name) is not model", "F") not in q.guards_of(cm, dels[0]):
+        R.bad(cm, dels[0], "closing a stale handle removes whatever model is registered under that name now "
+                           "(a = new_model('A'); a.close(); new_model('A'); a.close())")
 
 
 @rule("C19.R3", "C19", "DOM", "every registry write is dominated by a taken-name test", min_instances=7)
